@@ -286,6 +286,28 @@ Theorem C11_plain_argmin_f64 : forall V : list R,
   end.
 Proof. exact plain_argmin_float. Qed.
 
+(* AggBasic::min / max on null-free input *)
+Theorem C11_plain_min_max_f64 : forall V : list R,
+  match pmin (map Some V) with
+  | None => V = []
+  | Some m => exists r, m = Some r /\ In r V /\ forall x, In x V -> (r <= x)%R
+  end /\
+  match pmax (map Some V) with
+  | None => V = []
+  | Some m => exists r, m = Some r /\ In r V /\ forall x, In x V -> (x <= r)%R
+  end.
+Proof. intros. split; [apply plain_min_float|apply plain_max_float]. Qed.
+Theorem C11_plain_min_max_int : forall l : list Z,
+  match pmin (NA := AggNumZ) l with
+  | None => l = []
+  | Some m => In m l /\ forall x, In x l -> (m <= x)%Z
+  end /\
+  match pmax (NA := AggNumZ) l with
+  | None => l = []
+  | Some m => In m l /\ forall x, In x l -> (x <= m)%Z
+  end.
+Proof. exact plain_min_max_int. Qed.
+
 (* ================= two series ========================================================================== *)
 Theorem C11_vcov :
   forall {A T T2} {DT : IsNone T A} {DT2 : IsNone T2 A} (tof : A -> XR) (mp : nat) (xs : list T) (ys : list T2),
